@@ -300,7 +300,7 @@ bool run_once(const Scenario &sc, const std::function<int(size_t, unsigned)> &ch
     util::PCQueue<Item> *q = pcq.get();
     for (size_t p = 0; p < prod.size(); ++p) {
       long n = prod[p];
-      bodies.push_back([q, p, n] { for (long i = 0; i < n; ++i) q->Produce(Item((int)(p * 1000 + i + 1))); });
+      bodies.push_back([q, p, n] { for (long i = 0; i < n; ++i) q->Produce(Item((int)(p * 1000000 + i + 1))); });
     }
     for (size_t c = 0; c < cons.size(); ++c) {
       long n = cons[c];
